@@ -259,6 +259,37 @@ def generate(rng: random.Random, tier: str):
                     continue
                 yield commute_case(fam, doc, sa, sb, "overlapping")
 
+    # touching pairs: the second step inserts, deletes or replaces exactly AT one of the positions the first step refers
+    # to (from, to, gap_from, gap_to, pos) - where the association side each Step.map passes to the mapping decides
+    # whether the position moves. Nothing is claimed about the results; Step.map must be what the model computes, in both
+    # directions.
+    for fam in ("list", "blockmarks"):
+        g, docs = S.family_docs(rng, fam, 5 if quick else 40)
+        sc = gen.family(fam)
+        ins = Slice(Fragment.from_(sc.text("xy")), 0, 0)
+        for doc in docs:
+            n = doc.content.size
+            if n < 4:
+                continue
+            for _ in range(6 if quick else 20):
+                lo = rng.randint(0, n - 2)
+                hi = rng.randint(lo + 1, min(n, lo + 10))
+                sa = one_step(rng, g, doc, docs, lo, hi)
+                if sa is None:
+                    continue
+                pts = sorted({getattr(sa, k) for k in ("from_", "to", "gap_from", "gap_to", "pos") if hasattr(sa, k)})
+                for p_ in pts:
+                    k = rng.randint(1, 3)
+                    cands = [ReplaceStep(p_, p_, ins)]
+                    if p_ - k >= 0:
+                        cands.append(ReplaceStep(p_ - k, p_, Slice.empty))
+                    if p_ + k <= n:
+                        cands.append(ReplaceStep(p_, p_ + k, Slice.empty))
+                    if p_ - 1 >= 0 and p_ + 1 <= n:
+                        cands.append(ReplaceStep(p_ - 1, p_ + 1, ins))
+                    for sb in rng.sample(cands, min(2, len(cands))):
+                        yield commute_case(fam, doc, sa, sb, "touching")
+
 
 def rebuild(desc):
     sc = gen.family(desc["family"])
